@@ -167,6 +167,10 @@ Proof.
 Qed.
 
 
+Lemma ocfg_fields a b : ocfg a = ocfg b ->
+  o_id a = o_id b /\ o_ver a = o_ver b /\ o_clean a = o_clean b /\ o_sei a = o_sei b /\ o_seiflag a = o_seiflag b.
+Proof. unfold ocfg. intro H. inversion H. auto. Qed.
+
 Lemma unsubscribe_client_same_cfg c s : same_cfg s (unsubscribe_client c s).
 Proof.
   unfold unsubscribe_client. destruct (get_obj c (st_objs s)) as [o|] eqn:G; [|apply same_cfg_refl].
@@ -217,8 +221,367 @@ Proof.
     { unfold upd_obj. cbn. pose proof (get_put_same (with_phase oa PhDone) (st_objs sa)) as GP. cbn in GP.
       rewrite (get_obj_conn _ _ _ Ga) in GP. exact GP. }
     split; [transitivity (ocfg oa); [reflexivity|]; rewrite ECa, CF', ECF; reflexivity|].
+    destruct (ocfg_fields _ _ ECF) as (F1 & F2 & F3 & F4 & F5). destruct (ocfg_fields _ _ CF') as (H1 & H2 & H3 & H4 & H5).
     split; [congruence|]. split.
-    { unfold expire_cond in *. unfold ocfg in ECF, CF'. inversion ECF. inversion CF'. congruence. }
-    cbn. unfold ocfg in ECF, CF'. inversion ECF. inversion CF'. subst s2. cbn. rewrite C1. congruence.
+    { unfold expire_cond in *. rewrite <- F2, <- F3, <- F4, <- H2, <- H3, <- H4. exact EXP. }
+    cbn. subst s2. cbn. rewrite C1, H1, F1. reflexivity.
   - left. match goal with |- st_clients (match ?g with Some x => upd_obj ?z _ | None => _ end) = _ => destruct g; cbn; exact C1 end.
+Qed.
+
+Lemma tick_clients_removed k now id : forall l s,
+  aget id (st_clients s) <> None -> aget id (st_clients (fst (tick_clients k now l s))) = None ->
+  exists c o, In (id, c) l /\ get_obj c (st_objs s) = Some o /\ o_disc o <> 0%Z /\ (o_disc o + Z.of_N (interval k o) < now)%Z.
+Proof.
+  induction l as [|[id' c] r IH]; intros s A R; cbn [tick_clients] in R; [cbn in R; congruence|].
+  destruct (get_obj c (st_objs s)) as [o|] eqn:G.
+  2:{ destruct (IH s A R) as (c2 & o2 & I & H). exists c2, o2. split; [right; exact I|exact H]. }
+  destruct (o_disc o =? 0)%Z eqn:DZ.
+  { destruct (IH s A R) as (c2 & o2 & I & H). exists c2, o2. split; [right; exact I|exact H]. }
+  fold (interval k o) in R.
+  destruct (o_disc o + Z.of_N (interval k o) <? now)%Z eqn:LT.
+  2:{ destruct (IH s A R) as (c2 & o2 & I & H). exists c2, o2. split; [right; exact I|exact H]. }
+  set (sa := unsubscribe_client c (clear_inflights c s)) in *.
+  assert (SKa : same_keys s sa) by (eapply same_keys_trans; [apply clear_inflights_same_keys|apply unsubscribe_client_same_keys]).
+  assert (SCa : same_cfg s sa) by (eapply same_cfg_trans; [apply clear_inflights_same_cfg|apply unsubscribe_client_same_cfg]).
+  assert (CA : st_clients sa = st_clients s) by (destruct SKa as (_ & E & _); exact E).
+  set (s2 := set_clients sa (adel id' (st_clients sa))) in *.
+  destruct (tick_clients k now r s2) as [s3 outs] eqn:T. cbn [fst] in R.
+  destruct (bb_dec id id') as [->|NE].
+  - exists c, o. split; [left; reflexivity|]. split; [exact G|]. apply Z.eqb_neq in DZ. apply Z.ltb_lt in LT. auto.
+  - assert (A2 : aget id (st_clients s2) <> None) by (subst s2; cbn; rewrite CA, aget_adel_other by exact NE; exact A).
+    specialize (IH s2 A2). rewrite T in IH. destruct (IH R) as (c2 & o2 & I & G2 & D2 & L2).
+    destruct (same_keys_obj _ _ _ _ SKa G2) as (ob & Gb & EK). destruct (same_cfg_obj' _ _ _ _ SCa Gb) as (ox & Gx & ECF).
+    assert (Gx' : get_obj c2 (st_objs s2) = Some ox) by exact Gx. rewrite G2 in Gx'. inversion Gx'; subst ox.
+    unfold okey in EK. inversion EK as [[EI ET EO EP ED]]. destruct (ocfg_fields _ _ ECF) as (F1 & F2 & F3 & F4 & F5).
+    exists c2, ob. split; [right; exact I|]. split; [exact Gb|]. split; [congruence|].
+    unfold interval in *. rewrite <- F2, <- F4, <- F5, ED. exact L2.
+Qed.
+
+(* C15 (when): a registered session disappears from Clients only
+   - by the housekeeping tick, when it is disconnected and more than its interval has elapsed, or
+   - at the end of its own connection, when the session ends with the connection (expiry 0 / MQTT 3 clean). *)
+Theorem discard_only_when_due k s o id :
+  inv s -> removed s (fst (step k s o)) id ->
+  match o with
+  | OTickClients now =>
+      exists c ob, aget id (st_clients s) = Some c /\ get_obj c (st_objs s) = Some ob /\ o_open ob = false /\
+                   (o_disc ob + Z.of_N (interval k ob) < now)%Z
+  | ODisconnect c _ _ _ | ONetClose c _ | OSecondConnect c _ | OTeardown c _ =>
+      aget id (st_clients s) = Some c /\
+      exists ob', get_obj c (st_objs (fst (step k s o))) = Some ob' /\ o_id ob' = id /\ expire_cond ob' = true
+  | _ => False
+  end.
+Proof.
+  intros [W X] [A R]. destruct o; cbn [step] in *.
+  - (* connect *)
+    destruct (memN c (st_used s)); [cbn in R; congruence|]. exfalso. unfold attach in R.
+    destruct (cp_trunc p); [cbn in R; congruence|]. destruct (negb (validate_connect k p =? 0)); [cbn in R; congruence|].
+    destruct (negb auth_ok); [cbn in R; congruence|].
+    pose proof (inherit_frame k now p (parse_connect c p effid) (set_used s (c :: st_used s)) (wf_set_used s c W)) as IF.
+    destruct (inherit k now p (parse_connect c p effid) (set_used s (c :: st_used s))) as [[[s1 n1] sp] o1].
+    destruct IF as (KN & CN & IF). cbn [fst] in R. cbn in R.
+    assert (C1 : st_clients s1 = st_clients s).
+    { change (o_id (parse_connect c p effid)) with effid in IF. destruct (aget effid (st_clients (set_used s (c :: st_used s)))) eqn:AE.
+      - destruct IF as ((_ & C1 & _) & _). exact C1.
+      - subst s1. reflexivity. }
+    match type of R with aget id (aset ?e c _) = None => destruct (bb_dec id e) as [->|NE] end.
+    + rewrite aget_aset_same in R. discriminate.
+    + rewrite aget_aset_other, C1 in R by exact NE. congruence.
+  - destruct (memN c (st_used s)); cbn in R; congruence.
+  - (* disconnect *)
+    unfold do_disconnect in *. destruct (reading s c) as [ob|] eqn:RD; [|cbn in R; congruence].
+    destruct (reading_wf s c ob W RD) as (G & OO & AR). pose proof (get_obj_conn _ _ _ G) as EC.
+    destruct (match sei with Some v => (0 <? v) && (o_sei ob =? 0) | None => false end).
+    + destruct (disconnect_client_keeps now c 130 s) as (C1 & K1).
+      destruct (K1 c ob G) as (ob1 & G1 & I1 & _).
+      destruct (disconnect_client now c 130 s) as [s1 o1]. cbn [fst] in *.
+      pose proof (handler_tail_clients k now c true s1) as HC.
+      destruct (handler_tail k now c true s1) as [s2 o2]. cbn [fst] in *.
+      destruct HC as [HC|(oa & ob' & Ga & Gb & ECF & TK & EXP & HC)]; [rewrite HC, C1 in R; congruence|].
+      rewrite HC, C1 in R. rewrite G1 in Ga. inversion Ga; subst oa.
+      destruct (bb_dec id (o_id ob1)) as [->|NE]; [|rewrite aget_adel_other in R by exact NE; congruence].
+      split; [rewrite I1; exact AR|]. exists ob'. destruct (ocfg_fields _ _ ECF) as (F1 & F2 & F3 & F4 & F5).
+      split; [exact Gb|split; [exact F1|]]. unfold expire_cond in *. rewrite F2, F3, F4. exact EXP.
+    + set (o' := match sei with Some v => with_sei ob (if k_maxsei k <? v then k_maxsei k else v) true | None => ob end) in *.
+      assert (C' : o_conn o' = c /\ o_id o' = o_id ob) by (subst o'; destruct sei; cbn; auto).
+      destruct C' as [C' I'].
+      assert (G1 : get_obj c (st_objs (upd_obj s o')) = Some o') by (unfold upd_obj; cbn; rewrite <- C'; apply get_put_same).
+      destruct (negb (rc =? 0)).
+      * pose proof (handler_tail_clients k now c true (upd_obj s o')) as HC.
+        destruct (handler_tail k now c true (upd_obj s o')) as [s2 o2]. cbn [fst] in *.
+        destruct HC as [HC|(oa & ob' & Ga & Gb & ECF & TK & EXP & HC)]; [rewrite HC in R; cbn in R; congruence|].
+        rewrite HC in R. change (st_clients (upd_obj s o')) with (st_clients s) in R. rewrite G1 in Ga. inversion Ga; subst oa.
+        destruct (bb_dec id (o_id o')) as [->|NE]; [|rewrite aget_adel_other in R by exact NE; congruence].
+        split; [rewrite I'; exact AR|]. exists ob'. destruct (ocfg_fields _ _ ECF) as (F1 & F2 & F3 & F4 & F5).
+        split; [exact Gb|split; [exact F1|]]. unfold expire_cond in *. rewrite F2, F3, F4. exact EXP.
+      * set (s2 := set_wills (upd_obj s o') (adel (o_id o') (st_wills (upd_obj s o')))) in *.
+        set (s3 := upd_obj s2 (stopped o' now)) in *.
+        assert (G3 : get_obj c (st_objs s3) = Some (stopped o' now)).
+        { subst s3. unfold upd_obj. cbn. pose proof (get_put_same (stopped o' now) (put_obj o' (st_objs s))) as GP.
+          rewrite stopped_conn, C' in GP. exact GP. }
+        pose proof (handler_tail_clients k now c false s3) as HC.
+        destruct (handler_tail k now c false s3) as [s4 o4]. cbn [fst] in *.
+        destruct HC as [HC|(oa & ob' & Ga & Gb & ECF & TK & EXP & HC)]; [rewrite HC in R; cbn in R; congruence|].
+        rewrite HC in R. change (st_clients s3) with (st_clients s) in R. rewrite G3 in Ga. inversion Ga; subst oa.
+        destruct (stopped_fields o' now) as (SI & _).
+        destruct (bb_dec id (o_id (stopped o' now))) as [->|NE]; [|rewrite aget_adel_other in R by exact NE; congruence].
+        split; [rewrite SI, I'; exact AR|]. exists ob'. destruct (ocfg_fields _ _ ECF) as (F1 & F2 & F3 & F4 & F5).
+        split; [exact Gb|split; [exact F1|]]. unfold expire_cond in *. rewrite F2, F3, F4. exact EXP.
+  - (* network close *)
+    unfold do_netclose in *. destruct (reading s c) as [ob|] eqn:RD; [|cbn in R; congruence].
+    destruct (reading_wf s c ob W RD) as (G & OO & AR).
+    pose proof (handler_tail_clients k now c true s) as HC.
+    destruct (handler_tail k now c true s) as [s2 o2]. cbn [fst] in *.
+    destruct HC as [HC|(oa & ob' & Ga & Gb & ECF & TK & EXP & HC)]; [rewrite HC in R; congruence|].
+    rewrite HC in R. rewrite G in Ga. inversion Ga; subst oa.
+    destruct (bb_dec id (o_id ob)) as [->|NE]; [|rewrite aget_adel_other in R by exact NE; congruence].
+    split; [exact AR|]. exists ob'. destruct (ocfg_fields _ _ ECF) as (F1 & F2 & F3 & F4 & F5).
+    split; [exact Gb|split; [exact F1|]]. unfold expire_cond in *. rewrite F2, F3, F4. exact EXP.
+  - (* teardown of a taken-over connection: nothing is removed *)
+    unfold do_teardown in *. destruct (get_obj c (st_objs s)) as [ob|] eqn:G; [|cbn in R; congruence].
+    destruct (o_phase ob) eqn:PH; try (cbn in R; congruence).
+    destruct (wf_held s W c ob G PH) as [TK _].
+    pose proof (handler_tail_clients k now c true s) as HC.
+    destruct (handler_tail k now c true s) as [s2 o2]. cbn [fst] in *.
+    destruct HC as [HC|(oa & ob' & Ga & Gb & ECF & TK' & _)]; [rewrite HC in R; congruence|].
+    rewrite G in Ga. inversion Ga; subst oa. congruence.
+  - (* tick *)
+    destruct (tick_clients_removed k now id (st_clients s) s A R) as (c & ob & I & G & D & L).
+    exists c, ob. split; [apply in_aget_nodup; [apply (wf_nodup s W)|exact I]|]. split; [exact G|]. split; [|exact L].
+    destruct (o_open ob) eqn:OO; [|reflexivity]. destruct (wf_open s W c ob G OO) as (_ & _ & DZ). congruence.
+  - pose proof (tick_will_same_keys k now (st_wills s) s) as (_ & E & _). rewrite E in R. congruence.
+  - unfold do_subscribe in R. destruct (reading s c); cbn in R; congruence.
+  - unfold do_publish in R. destruct (reading s c); [|cbn in R; congruence].
+    match type of R with aget id (st_clients (fst (publish k m ?sx))) = None =>
+      pose proof (publish_same_keys k m sx) as (_ & E & _); rewrite E in R end.
+    destruct (m_retain m); [|congruence]. pose proof (retain_msg_same_keys k m s) as (_ & E2 & _). rewrite E2 in R. congruence.
+  - (* second connect *)
+    unfold do_second_connect in *. destruct (reading s c) as [ob|] eqn:RD; [|cbn in R; congruence].
+    destruct (reading_wf s c ob W RD) as (G & OO & AR).
+    pose proof (send_lwt_same_keys k now c s) as SK. pose proof (send_lwt_same_cfg k now c s) as SC.
+    destruct (send_lwt k now c s) as [s1 o1]. cbn [fst] in *.
+    assert (C1 : st_clients s1 = st_clients s) by (destruct SK as (_ & E & _); exact E).
+    destruct (same_cfg_obj' _ _ _ _ SC G) as (oa1 & Ga1 & ECF1).
+    assert (B : st_clients (fst (if o_ver ob =? 5 then disconnect_client now c 130 s1 else (s1, []))) = st_clients s1 /\
+                exists ob2, get_obj c (st_objs (fst (if o_ver ob =? 5 then disconnect_client now c 130 s1 else (s1, [])))) = Some ob2 /\
+                            o_id ob2 = o_id oa1).
+    { destruct (o_ver ob =? 5).
+      - destruct (disconnect_client_keeps now c 130 s1) as (C2 & K2). split; [exact C2|]. destruct (K2 c oa1 Ga1) as (ob2 & G2 & I2 & _). exists ob2. auto.
+      - cbn [fst]. split; [reflexivity|]. exists oa1. auto. }
+    destruct (if o_ver ob =? 5 then disconnect_client now c 130 s1 else (s1, [])) as [s2 o2]. cbn [fst] in B.
+    destruct B as (C2 & ob2 & G2 & I2).
+    pose proof (handler_tail_clients k now c true s2) as HC.
+    destruct (handler_tail k now c true s2) as [s3 o3]. cbn [fst] in *.
+    destruct HC as [HC|(oa & ob' & Ga & Gb & ECF & TK & EXP & HC)]; [rewrite HC, C2, C1 in R; congruence|].
+    rewrite HC, C2, C1 in R. rewrite G2 in Ga. inversion Ga; subst oa.
+    destruct (ocfg_fields _ _ ECF1) as (E1 & _).
+    destruct (bb_dec id (o_id ob2)) as [->|NE]; [|rewrite aget_adel_other in R by exact NE; congruence].
+    split; [rewrite I2, E1; exact AR|]. exists ob'. destruct (ocfg_fields _ _ ECF) as (F1 & F2 & F3 & F4 & F5).
+    split; [exact Gb|split; [exact F1|]]. unfold expire_cond in *. rewrite F2, F3, F4. exact EXP.
+Qed.
+
+Lemma handler_tail_deletes k now c err s o :
+  get_obj c (st_objs s) = Some o -> expire_cond o = true -> o_tko o = false ->
+  st_clients (fst (handler_tail k now c err s)) = adel (o_id o) (st_clients s).
+Proof.
+  intros G0 EXP TK. unfold handler_tail.
+  assert (SK : same_keys s (fst (if err then send_lwt k now c s else (s, [])))) by (destruct err; [apply send_lwt_same_keys|apply same_keys_refl]).
+  assert (SC : same_cfg s (fst (if err then send_lwt k now c s else (s, [])))) by (destruct err; [apply send_lwt_same_cfg|apply same_cfg_refl]).
+  destruct (if err then send_lwt k now c s else (s, [])) as [s1 o1]. cbn [fst] in SK, SC.
+  assert (C1 : st_clients s1 = st_clients s) by (destruct SK as (_ & E & _); exact E).
+  destruct (same_keys_obj' _ _ _ _ SK G0) as (ob & G & EK). unfold okey in EK. inversion EK as [[EI ET EO EPH ED]].
+  destruct (same_cfg_obj' _ _ _ _ SC G0) as (ox & Gx & ECF). rewrite G in Gx. inversion Gx; subst ox.
+  rewrite G. cbn [fst].
+  set (o' := if err then stopped ob now else with_will ob no_will).
+  assert (F' : ocfg o' = ocfg ob /\ o_tko o' = o_tko ob /\ expire_cond o' = expire_cond ob).
+  { subst o'. destruct err; [unfold stopped; destruct (o_open ob); cbn; auto|cbn; auto]. }
+  destruct F' as (CF' & T' & EX').
+  destruct (ocfg_fields _ _ ECF) as (F1 & F2 & F3 & F4 & F5). destruct (ocfg_fields _ _ CF') as (H1 & H2 & H3 & H4 & H5).
+  assert (EXB : expire_cond o' && negb (o_tko o') = true).
+  { rewrite EX', T', <- ET, TK. unfold expire_cond in *. rewrite F2, F3, F4, EXP. reflexivity. }
+  rewrite EXB.
+  match goal with |- st_clients (match ?g with Some x => upd_obj ?z _ | None => _ end) = _ =>
+    assert (E : st_clients (match g with Some x => upd_obj z (with_phase x PhDone) | None => z end) = st_clients z) by (destruct g; reflexivity) end.
+  rewrite E. cbn. rewrite C1, H1, F1. reflexivity.
+Qed.
+
+(* C15: a DISCONNECT cannot raise a zero session expiry interval: the attempt is a protocol error,
+   the interval stays zero and the session ends with the connection *)
+Theorem disconnect_cannot_raise k s c now rc v ob :
+  inv s -> reading s c = Some ob -> o_ver ob = 5 -> o_sei ob = 0 -> 0 < v ->
+  let s' := fst (do_disconnect k c now rc (Some v) s) in
+  aget (o_id ob) (st_clients s') = None /\
+  (forall ob', get_obj c (st_objs s') = Some ob' -> o_sei ob' = 0) /\
+  In (OPkt c (PDisconnect 130)) (snd (do_disconnect k c now rc (Some v) s)).
+Proof.
+  intros [W X] RD V5 S0 VP. cbn zeta. unfold do_disconnect. rewrite RD.
+  assert (B : (0 <? v) && (o_sei ob =? 0) = true) by (rewrite S0; cbn; rewrite andb_true_r; apply N.ltb_lt; exact VP).
+  rewrite B. destruct (reading_wf s c ob W RD) as (G & OO & AR).
+  destruct (disconnect_client_keeps now c 130 s) as (C1 & K1).
+  destruct (K1 c ob G) as (ob1 & G1 & I1 & T1 & P1 & _ & _ & _ & _ & _ & _ & V1 & CL1 & SE1 & SF1).
+  assert (O1 : snd (disconnect_client now c 130 s) = [OPkt c (PDisconnect 130); OClose c]).
+  { unfold disconnect_client. rewrite G, OO. rewrite V5. reflexivity. }
+  destruct (disconnect_client now c 130 s) as [s1 o1]. cbn [fst snd] in *.
+  destruct (wf_reg s W _ _ AR) as (ox & Gx & _ & TKx). rewrite G in Gx. inversion Gx; subst ox.
+  assert (EXP : expire_cond ob1 = true) by (unfold expire_cond; rewrite V1, V5, SE1, S0; reflexivity).
+  pose proof (handler_tail_deletes k now c true s1 ob1 G1 EXP (eq_trans T1 TKx)) as HD.
+  pose proof (handler_tail_clients k now c true s1) as HC.
+  destruct (handler_tail k now c true s1) as [s2 o2]. cbn [fst snd] in *.
+  split; [rewrite HD, I1; apply aget_adel_same|]. split.
+  - intros ob' Gb. destruct HC as [HC|(oa & ob2 & Ga & Gb2 & ECF & _)].
+    + rewrite HD in HC. exfalso.
+      assert (AA : aget (o_id ob1) (adel (o_id ob1) (st_clients s1)) = aget (o_id ob1) (st_clients s1)) by (rewrite HC; reflexivity).
+      rewrite aget_adel_same, C1, I1, AR in AA. discriminate.
+    + rewrite G1 in Ga. inversion Ga; subst oa. rewrite Gb in Gb2. inversion Gb2; subst ob2.
+      destruct (ocfg_fields _ _ ECF) as (_ & _ & _ & F4 & _). congruence.
+  - rewrite O1. left. reflexivity.
+Qed.
+
+(* the interval the broker stores never exceeds the server maximum *)
+Definition capped (k : caps) (s : state) : Prop :=
+  forall c o, get_obj c (st_objs s) = Some o -> o_sei o <= k_maxsei k.
+
+Lemma capped_same_cfg k s s' : same_cfg s s' -> capped k s -> capped k s'.
+Proof.
+  intros (_ & _ & K) C c o' G. specialize (K c). rewrite G in K. cbn in K.
+  destruct (get_obj c (st_objs s)) as [o|] eqn:G0; [|discriminate]. cbn in K.
+  assert (KK : ocfg o' = ocfg o) by congruence.
+  destruct (ocfg_fields _ _ KK) as (_ & _ & _ & F4 & _). rewrite F4. apply (C c o G0).
+Qed.
+
+Lemma handler_tail_same_cfg k now c err s : same_cfg s (fst (handler_tail k now c err s)).
+Proof.
+  unfold handler_tail.
+  assert (SC : same_cfg s (fst (if err then send_lwt k now c s else (s, [])))) by (destruct err; [apply send_lwt_same_cfg|apply same_cfg_refl]).
+  destruct (if err then send_lwt k now c s else (s, [])) as [s1 o1]. cbn [fst] in SC.
+  destruct (get_obj c (st_objs s1)) as [o|] eqn:G; [|exact SC]. cbn [fst].
+  set (o' := if err then stopped o now else with_will o no_will).
+  assert (F' : o_conn o' = c /\ ocfg o' = ocfg o).
+  { subst o'. destruct err; [rewrite stopped_conn, stopped_cfg|cbn]; split; auto; apply (get_obj_conn _ _ _ G). }
+  destruct F' as (C' & CF').
+  assert (E2 : same_cfg s1 (upd_obj s1 o')) by (apply same_cfg_upd with (o0 := o); [rewrite C'; exact G|exact CF']).
+  set (s2 := upd_obj s1 o') in *.
+  set (s3 := if expire_cond o' && negb (o_tko o')
+             then set_clients (unsubscribe_client c (clear_inflights c s2)) (adel (o_id o') (st_clients s2)) else s2).
+  assert (E3 : same_cfg s2 s3).
+  { subst s3. destruct (expire_cond o' && negb (o_tko o')); [|apply same_cfg_refl].
+    eapply same_cfg_trans; [apply clear_inflights_same_cfg|]. eapply same_cfg_trans; [apply unsubscribe_client_same_cfg|repeat split]. }
+  eapply same_cfg_trans; [exact SC|]. eapply same_cfg_trans; [exact E2|]. eapply same_cfg_trans; [exact E3|].
+  destruct (get_obj c (st_objs s3)) as [x|] eqn:G3; [|apply same_cfg_refl].
+  apply same_cfg_upd with (o0 := x); cbn; [rewrite (get_obj_conn _ _ _ G3); exact G3|reflexivity].
+Qed.
+
+Lemma tick_clients_same_cfg k now l : forall s, same_cfg s (fst (tick_clients k now l s)).
+Proof.
+  induction l as [|[id c] r IH]; intro s; cbn [tick_clients]; [apply same_cfg_refl|].
+  destruct (get_obj c (st_objs s)) as [o|]; [|apply IH]. destruct (o_disc o =? 0)%Z; [apply IH|].
+  match goal with |- context [if (?a <? now)%Z then _ else _] => destruct (a <? now)%Z end; [|apply IH].
+  match goal with |- context [tick_clients k now r ?sx] => specialize (IH sx); destruct (tick_clients k now r sx) as [s3 outs] end.
+  cbn [fst] in *. eapply same_cfg_trans; [|exact IH].
+  eapply same_cfg_trans; [apply clear_inflights_same_cfg|]. eapply same_cfg_trans; [apply unsubscribe_client_same_cfg|repeat split].
+Qed.
+
+Lemma cfg_match_upd e (f : cobj -> cobj) s : (forall x, o_conn (f x) = o_conn x /\ ocfg (f x) = ocfg x) ->
+  same_cfg s (match get_obj e (st_objs s) with Some x => upd_obj s (f x) | None => s end).
+Proof.
+  intro H. destruct (get_obj e (st_objs s)) as [x|] eqn:G; [|apply same_cfg_refl].
+  destruct (H x) as [A B]. apply same_cfg_upd with (o0 := x); [rewrite A, (get_obj_conn _ _ _ G); exact G|exact B].
+Qed.
+
+Lemma inherit_same_cfg k now p n s :
+  let '(s1, n1, sp, o1) := inherit k now p n s in same_cfg s s1 /\ o_sei n1 = o_sei n.
+Proof.
+  unfold inherit. destruct (aget (o_id n) (st_clients s)) as [e|]; [|split; [apply same_cfg_refl|reflexivity]].
+  destruct (get_obj e (st_objs s)) as [eo0|] eqn:G0; [|split; [apply same_cfg_refl|reflexivity]].
+  pose proof (disconnect_client_same_cfg now e 142 s) as E1.
+  destruct (disconnect_client now e 142 s) as [s1 o1]. cbn [fst] in E1.
+  set (s1' := match get_obj e (st_objs s1) with
+              | Some x => if (match o_phase x with PhReading => true | _ => false end) && negb (o_open x)
+                          then upd_obj s1 (with_phase x PhHeld) else s1
+              | None => s1 end).
+  assert (E1' : same_cfg s1 s1').
+  { subst s1'. destruct (get_obj e (st_objs s1)) as [x|] eqn:G1; [|apply same_cfg_refl].
+    destruct ((match o_phase x with PhReading => true | _ => false end) && negb (o_open x)); [|apply same_cfg_refl].
+    apply same_cfg_upd with (o0 := x); cbn; [rewrite (get_obj_conn _ _ _ G1); exact G1|reflexivity]. }
+  assert (E01 : same_cfg s s1') by (eapply same_cfg_trans; eassumption).
+  destruct (cp_clean p || (o_clean eo0 && (o_ver eo0 <? 5))).
+  - split; [|reflexivity]. eapply same_cfg_trans; [exact E01|]. eapply same_cfg_trans; [apply unsubscribe_client_same_cfg|].
+    eapply same_cfg_trans; [apply clear_inflights_same_cfg|]. apply (cfg_match_upd e with_tko). intro x. split; reflexivity.
+  - split; [|reflexivity]. eapply same_cfg_trans; [exact E01|].
+    eapply same_cfg_trans; [apply (cfg_match_upd e with_tko); intro x; split; reflexivity|].
+    eapply same_cfg_trans; [|apply clear_inflights_same_cfg].
+    eapply same_cfg_trans; [|apply unsubscribe_client_same_cfg]. repeat split.
+Qed.
+
+Theorem step_capped k s o : capped k s -> capped k (fst (step k s o)).
+Proof.
+  intro C. destruct o; cbn [step].
+  - destruct (memN c (st_used s)); [exact C|]. unfold attach.
+    destruct (cp_trunc p); [exact C|]. destruct (negb (validate_connect k p =? 0)); [exact C|]. destruct (negb auth_ok); [exact C|].
+    pose proof (inherit_same_cfg k now p (parse_connect c p effid) (set_used s (c :: st_used s))) as IS.
+    destruct (inherit k now p (parse_connect c p effid) (set_used s (c :: st_used s))) as [[[s1 n1] sp] o1].
+    destruct IS as [SC SE]. cbn [fst].
+    assert (C1 : capped k s1) by (apply (capped_same_cfg k (set_used s (c :: st_used s))); [exact SC|exact C]).
+    set (n2 := if k_maxsei k <? o_sei n1 then with_sei n1 (k_maxsei k) true else n1).
+    assert (N2 : o_sei n2 <= k_maxsei k) by (subst n2; destruct (k_maxsei k <? o_sei n1) eqn:E; cbn; lia).
+    intros c' o' G. cbn in G. destruct (N.eq_dec c' (o_conn n2)) as [->|NE].
+    + rewrite get_put_same in G. inversion G; subst. exact N2.
+    + rewrite get_put_other in G by exact NE. apply (C1 c' o' G).
+  - destruct (memN c (st_used s)); exact C.
+  - unfold do_disconnect. destruct (reading s c) as [ob|] eqn:RD; [|exact C].
+    apply reading_obj in RD. destruct RD as [G OO]. pose proof (get_obj_conn _ _ _ G) as EC.
+    destruct (match sei with Some v => (0 <? v) && (o_sei ob =? 0) | None => false end).
+    + pose proof (disconnect_client_same_cfg now c 130 s) as E1. destruct (disconnect_client now c 130 s) as [s1 o1]. cbn [fst] in E1.
+      pose proof (handler_tail_same_cfg k now c true s1) as E2. destruct (handler_tail k now c true s1) as [s2 o2]. cbn [fst] in *.
+      apply (capped_same_cfg k s); [eapply same_cfg_trans; eassumption|exact C].
+    + set (o' := match sei with Some v => with_sei ob (if k_maxsei k <? v then k_maxsei k else v) true | None => ob end).
+      assert (C' : o_conn o' = c) by (subst o'; destruct sei; cbn; exact EC).
+      assert (S' : o_sei o' <= k_maxsei k).
+      { subst o'. destruct sei as [v|]; cbn; [destruct (k_maxsei k <? v) eqn:E; lia|apply (C c ob G)]. }
+      assert (C1 : capped k (upd_obj s o')).
+      { intros c' x Gx. unfold upd_obj in Gx. cbn in Gx. destruct (N.eq_dec c' (o_conn o')) as [->|NE].
+        - rewrite get_put_same in Gx. inversion Gx; subst. exact S'.
+        - rewrite get_put_other in Gx by exact NE. apply (C c' x Gx). }
+      destruct (negb (rc =? 0)).
+      * pose proof (handler_tail_same_cfg k now c true (upd_obj s o')) as E2.
+        destruct (handler_tail k now c true (upd_obj s o')) as [s2 o2]. cbn [fst] in *. apply (capped_same_cfg k _ _ E2 C1).
+      * set (s2 := set_wills (upd_obj s o') (adel (o_id o') (st_wills (upd_obj s o')))).
+        assert (G2 : get_obj c (st_objs s2) = Some o') by (subst s2; cbn; rewrite <- C'; apply get_put_same).
+        assert (E3 : same_cfg (upd_obj s o') (upd_obj s2 (stopped o' now))).
+        { eapply same_cfg_trans; [instantiate (1 := s2); repeat split|].
+          apply same_cfg_upd with (o0 := o'); [rewrite stopped_conn, C'; exact G2|apply stopped_cfg]. }
+        pose proof (handler_tail_same_cfg k now c false (upd_obj s2 (stopped o' now))) as E4.
+        destruct (handler_tail k now c false (upd_obj s2 (stopped o' now))) as [s4 o4]. cbn [fst] in *.
+        apply (capped_same_cfg k (upd_obj s o')); [eapply same_cfg_trans; eassumption|exact C1].
+  - unfold do_netclose. destruct (reading s c); [|exact C]. apply (capped_same_cfg k s); [apply handler_tail_same_cfg|exact C].
+  - unfold do_teardown. destruct (get_obj c (st_objs s)) as [ob|]; [|exact C]. destruct (o_phase ob); try exact C.
+    apply (capped_same_cfg k s); [apply handler_tail_same_cfg|exact C].
+  - apply (capped_same_cfg k s); [apply tick_clients_same_cfg|exact C].
+  - apply (capped_same_cfg k s); [apply tick_will_same_cfg|exact C].
+  - unfold do_subscribe. destruct (reading s c) as [ob|] eqn:RD; [|exact C]. apply reading_obj in RD. destruct RD as [G _]. cbn [fst].
+    apply (capped_same_cfg k s); [|exact C]. eapply same_cfg_trans; [|instantiate (1 := upd_obj s (with_session ob (aset f q (o_subs ob)) (o_infl ob))); repeat split].
+    apply same_cfg_upd with (o0 := ob); cbn; [rewrite (get_obj_conn _ _ _ G); exact G|reflexivity].
+  - unfold do_publish. destruct (reading s c); [|exact C]. apply (capped_same_cfg k s); [|exact C].
+    eapply same_cfg_trans; [|apply deliver_same_cfg]. destruct (m_retain m); [apply retain_msg_same_cfg|apply same_cfg_refl].
+  - unfold do_second_connect. destruct (reading s c) as [ob|]; [|exact C].
+    pose proof (send_lwt_same_cfg k now c s) as E1. destruct (send_lwt k now c s) as [s1 o1]. cbn [fst] in E1.
+    assert (E2 : same_cfg s1 (fst (if o_ver ob =? 5 then disconnect_client now c 130 s1 else (s1, [])))).
+    { destruct (o_ver ob =? 5); [apply disconnect_client_same_cfg|apply same_cfg_refl]. }
+    destruct (if o_ver ob =? 5 then disconnect_client now c 130 s1 else (s1, [])) as [s2 o2]. cbn [fst] in E2.
+    pose proof (handler_tail_same_cfg k now c true s2) as E3. destruct (handler_tail k now c true s2) as [s3 o3]. cbn [fst] in *.
+    apply (capped_same_cfg k s); [|exact C]. eapply same_cfg_trans; [exact E1|]. eapply same_cfg_trans; eassumption.
+Qed.
+
+Theorem interval_capped k ops : capped k (fold_left (fun s o => fst (step k s o)) ops init).
+Proof.
+  assert (H : forall ops s, capped k s -> capped k (fold_left (fun s o => fst (step k s o)) ops s)).
+  { induction ops0 as [|o r IH]; intros s C; cbn; [exact C|]. apply IH, step_capped, C. }
+  apply H. intros c o G. discriminate.
+Qed.
+
+Theorem inv_reachable k ops : inv (fold_left (fun s o => fst (step k s o)) ops init).
+Proof.
+  assert (H : forall ops s, inv s -> inv (fold_left (fun s o => fst (step k s o)) ops s)).
+  { induction ops0 as [|o r IH]; intros s I; cbn; [exact I|]. apply IH, step_inv, I. }
+  apply (H ops init inv_init).
 Qed.
